@@ -1,13 +1,15 @@
 //! One module per property. `spec(id)` returns the check description the engine runs.
 use crate::engine::PropSpec;
 
+pub mod c01;
 pub mod c06;
 pub mod c09;
 
-pub const ALL: &[&str] = &["C06", "C09"];
+pub const ALL: &[&str] = &["C01", "C06", "C09"];
 
 pub fn spec(id: &str) -> Option<PropSpec> {
     Some(match id {
+        "C01" => c01::spec(),
         "C06" => c06::spec(),
         "C09" => c09::spec(),
         _ => return None,
